@@ -36,6 +36,8 @@ func main() {
 		cmdReplay(os.Args[2:])
 	case "merge":
 		cmdMerge(os.Args[2:])
+	case "determinism":
+		cmdDeterminism(os.Args[2:])
 	default:
 		fmt.Fprintln(os.Stderr, "unknown command", os.Args[1])
 		os.Exit(2)
@@ -89,6 +91,11 @@ func generate(prop, tier, lane string, seed uint64, worker, run int) *Scenario {
 	return scn
 }
 
+// wdFlush, if set, is called by the watchdog before it kills the process: it
+// saves what the worker has found so far (violations with their replay files
+// are verdicts even if a later run hangs).
+var wdFlush func()
+
 func startWatchdog(limit time.Duration) {
 	go func() {
 		last := int64(-1)
@@ -102,6 +109,9 @@ func startWatchdog(limit time.Duration) {
 			}
 			if time.Since(lastChange) > limit {
 				fmt.Fprintf(os.Stderr, "WATCHDOG: no run completed for %v; the code under test blocks or spins outside the simulator's control. Exit 2 (not a verdict).\n", limit)
+				if wdFlush != nil {
+					wdFlush()
+				}
 				os.Exit(2)
 			}
 		}
@@ -129,7 +139,7 @@ func cmdRun(args []string) {
 	loadSites(*sitesFile)
 
 	gcOwned := *lane == "sim" && *prop != "C07"
-	if *lane == "sim" {
+	if *lane == "sim" && os.Getenv("SLIMSIM_KEEP_GOMAXPROCS") == "" {
 		runtime.GOMAXPROCS(1)
 	}
 	if gcOwned {
@@ -137,12 +147,21 @@ func cmdRun(args []string) {
 		// finalizer behaviour must not depend on when the collector happens to
 		// run) and invoked explicitly between runs.
 		debug.SetGCPercent(-1)
-		debug.SetMemoryLimit(8 << 30)
+		debug.SetMemoryLimit(3 << 30)
 	}
 	startWatchdog(180 * time.Second)
 
 	stats := newStats(*prop, *tier, *lane, *seed, *worker)
 	t0 := time.Now()
+	wdFlush = func() {
+		// the main goroutine is stuck in a call that does not return
+		stats.Watchdog = true
+		stats.WallS = time.Since(t0).Seconds()
+		stats.finish()
+		if *out != "" {
+			writeJSON(*out, stats)
+		}
+	}
 	for run := 0; run < *runs; run++ {
 		if *deadline > 0 && time.Since(t0).Seconds() > *deadline {
 			stats.Truncated = true
@@ -248,7 +267,7 @@ func cmdReplay(args []string) {
 	if scn.Lane == "sim" {
 		runtime.GOMAXPROCS(1)
 		debug.SetGCPercent(-1)
-		debug.SetMemoryLimit(8 << 30)
+		debug.SetMemoryLimit(3 << 30)
 	}
 	startWatchdog(180 * time.Second)
 	for i := 0; i < *tries; i++ {
@@ -303,4 +322,52 @@ func siteName(id int) string {
 		return siteNames[id]
 	}
 	return fmt.Sprintf("site%d", id)
+}
+
+// cmdDeterminism: in-process determinism proof. Every run is executed twice
+// from its seed and once more from its own recorded schedule; the full event
+// log hash (every (task, site) yield event), the step count and the verdict
+// must be identical. Any divergence exits 2.
+func cmdDeterminism(args []string) {
+	fs := flag.NewFlagSet("determinism", flag.ExitOnError)
+	prop := fs.String("prop", "C11", "property")
+	tier := fs.String("tier", "quick", "tier")
+	seed := fs.Uint64("seed", 1, "seed")
+	runs := fs.Int("runs", 50, "runs")
+	fs.StringVar(&fixtureDir, "fixtures", fixtureDir, "fixtures")
+	fs.Parse(args)
+	if os.Getenv("SLIMSIM_KEEP_GOMAXPROCS") == "" {
+		runtime.GOMAXPROCS(1)
+	}
+	debug.SetGCPercent(-1)
+	debug.SetMemoryLimit(3 << 30)
+	startWatchdog(180 * time.Second)
+	bad, replayed := 0, 0
+	for run := 0; run < *runs; run++ {
+		scn := generate(*prop, *tier, "sim", *seed, 0, run)
+		a := execute(scn)
+		b := execute(generate(*prop, *tier, "sim", *seed, 0, run))
+		if a.EvHash != b.EvHash || a.Steps != b.Steps || (a.Viol == nil) != (b.Viol == nil) {
+			fmt.Printf("DIVERGENCE seed=%d run=%d: same seed twice: %016x/%d vs %016x/%d\n", *seed, run, a.EvHash, a.Steps, b.EvHash, b.Steps)
+			bad++
+		}
+		if len(a.Segs) > 0 {
+			c := scn.clone()
+			c.Strat = Strategy{Kind: "replay"}
+			c.Segs = a.Segs
+			r := execute(c)
+			replayed++
+			if r.EvHash != a.EvHash || r.Steps != a.Steps || (a.Viol == nil) != (r.Viol == nil) {
+				fmt.Printf("DIVERGENCE seed=%d run=%d: record vs replay: %016x/%d vs %016x/%d (strategy %s)\n", *seed, run, a.EvHash, a.Steps, r.EvHash, r.Steps, scn.Strat)
+				bad++
+			}
+		}
+		if run%8 == 7 {
+			runtime.GC()
+		}
+	}
+	fmt.Printf("determinism %s seed=%d: %d runs executed twice, %d replayed from their recorded schedule, %d divergences\n", *prop, *seed, *runs, replayed, bad)
+	if bad > 0 {
+		os.Exit(2)
+	}
 }
